@@ -230,6 +230,23 @@ def check(item, tier):
                                 bad('update_not_the_published_rule', {'step': nsteps, 's': s, 'a': a, 'r': float(rew), 'ns': ns,
                                                                       'na': repr(lna), 'expected_row': q[ls], 'observed_row': tabs[0].get(ls)})
                                 return
+                    if res is None:
+                        return tuple(hist)       # an execution cut at the point budget: only the experienced prefix is judged
+                    # ---- the run made exactly the configured number of episodes and hands the listener's results over
+                    n_end = sum(1 for rec in log if rec[0] == 'end')
+                    if n_end != episodes:
+                        bad('number_of_episodes', {'got': n_end, 'configured': episodes})
+                    else:
+                        sums, cur = [], 0
+                        for rec in log:
+                            if rec[0] == 'end':
+                                sums.append(cur)
+                                cur = 0
+                            else:
+                                cur += rec[3]
+                        if list(getattr(res, 'event_listener_results', None) or []) != sums:
+                            bad('event_listener_results_differ_from_the_episode_reward_sums',
+                                {'got': repr(getattr(res, 'event_listener_results', None))[:200], 'want': sums})
                     # ---- returned table
                     out = res.q_values
                     if lname == 'DoubleQLearning':
@@ -283,6 +300,7 @@ def check(item, tier):
                     r.count('executions')
                     if trunc:
                         r.count('truncated_executions')
+                        judge(None, e.devs())
                         return
                     h = judge(out, e.devs())
                     hists.add(h)
